@@ -69,6 +69,16 @@ def api_tail(rng, nreac, can_edit=True, can_export=True, extras=()):
     import json as _json
 
     h = K.hash64(_json.dumps(steps, sort_keys=True))
+    if h % 3 != 2:
+        # the session keeps its TemplateLoader objects: a repeated or in-place `render` request goes
+        # through the loader that served the earlier one (whatever loaders others created meanwhile)
+        seen_keys = set()
+        for st in steps:
+            if st["s"] == "render":
+                key = (st["solver"], st["method"], st["device"])
+                if key in seen_keys or h % 3 == 0:
+                    st["reuse_loader"] = True
+                seen_keys.add(key)
     if h % 4 == 0:
         # the user also writes the reactions to a file after the first rendering (read-only in intent)
         first = next(i for i, st in enumerate(steps) if st["s"] in ("render", "to_code", "export"))
@@ -765,7 +775,17 @@ def pinned_descriptions():
           "net": {"elements": ["e", "H", "D", "He"], "pseudo_elements": ["Photon"], "cooling": ["CIC_HI", "RC_HII", "CIC_HeI", "RC_HeI"]},
           "steps": [{"s": "new"}, {"s": "add_file", "file": "h.naunet", "fmt": "naunet"}, dict(r3),
                     {"s": "add_file", "file": "he.naunet", "fmt": "naunet"}, dict(r3), {"s": "to_code", "solver": "cvode", "method": "sparse", "device": "cpu"}]}
-    return [p1, p2, p3]
+    # a partially indexed network (file reactions carry their file index, hand-made ones do not)
+    # with a rate modifier, rendered repeatedly and through several entry points
+    r4 = {"s": "render", "solver": "cvode", "method": "sparse", "device": "cpu", "pattern": False}
+    p4 = {"id": "pinned-partial-index-0", "family": "pinned-partial-index", "entry": "api", "name": "simproj",
+          "files": {"net.kida": "\n".join(kida) + "\n"},
+          "net": dict(MIXED, rate_modifier={"11": "3.3e-10 * zeta", "13": "4.4e-17"}),
+          "steps": [{"s": "new"}, {"s": "add_file", "file": "net.kida", "fmt": "kida"},
+                    {"s": "add_inst", "R": ["CH", "O"], "P": ["CO", "H"], "pseudo": [], "alpha": 4.4e-11, "rtype": 100, "idx": -1},
+                    {"s": "add_inst", "R": ["O", "H2"], "P": ["OH", "H"], "pseudo": [], "alpha": 5.5e-11, "rtype": 100, "idx": -1},
+                    dict(r4), dict(r4), {"s": "to_code", "solver": "odeint", "method": "rosenbrock4", "device": "cpu"}, dict(r4, inplace=True)]}
+    return [p1, p2, p3, p4]
 
 
 def build_library(seed, tier):
